@@ -104,8 +104,18 @@ def known_match(k, f):
 
 
 # ------------------------------------------------------------------ stream helpers
+_CR_CACHE = {}
+
+
 def creators_index(full):
-    return [n for n, o in enumerate(full) if o.split("\t")[0] in CREATORS]
+    key = id(full)
+    hit = _CR_CACHE.get(key)
+    if hit is not None and hit[0] is full:
+        return hit[1]
+    cr = [n for n, o in enumerate(full) if o.split("\t", 1)[0] in CREATORS]
+    _CR_CACHE.clear()
+    _CR_CACHE[key] = (full, cr)
+    return cr
 
 
 def describe_handle(full, h, depth=0):
